@@ -260,6 +260,7 @@ func ruleC02Decomp(e *Env) {
 	// the decomposition may live in a function of the package that DefaultFormatter hands the number (and the flags)
 	// to: follow that one call
 	fn := top
+	var helperCall *ssa.Call
 	numP, flagP := ssa.Value(top.Params[1]), ssa.Value(top.Params[2])
 	hasDivision := func(f *ssa.Function) bool {
 		for _, b := range f.Blocks {
@@ -291,6 +292,7 @@ func ruleC02Decomp(e *Env) {
 				}
 			}
 			if ni >= 0 && ni < len(g.Params) && hasDivision(g) {
+				helperCall = call
 				fn, numP = g, g.Params[ni]
 				if fi >= 0 && fi < len(g.Params) {
 					flagP = g.Params[fi]
@@ -398,7 +400,7 @@ func ruleC02Decomp(e *Env) {
 	w0 := writes[0]
 	if k, ok := flow.ConstInt(w0.Call.Args[1]); !ok || k != thousand || k != 'M' {
 		e.S.Bad(rule, site, "thousands", "the first write is not the thousands symbol 'M'", e.posOf(w0), "")
-	} else if !loopBoundedBy(w0.Block(), steps[0].q) {
+	} else if loopBoundedBy(w0.Block(), steps[0].q) == nil {
 		e.S.Bad(rule, site, "thousands", "the 'M' write is not repeated exactly (n ÷ 1000) times (loop counter from 0, step 1, bound = first quotient)", e.posOf(w0), "")
 	} else {
 		e.S.Ok(rule, site, "thousands", "'M' written (n ÷ 1000) times", e.posOf(w0))
@@ -483,15 +485,11 @@ func ruleC02Decomp(e *Env) {
 				pathBad, badPos = "a return other than the n = 0 exit is reachable without the write of "+flow.FnName(e.C.StaticCallee(&w.Call.Args[1].(*ssa.Call).Call))+" (early exit or conditional write)", ret
 			}
 		}
-		h := writes[0].Block()
-		for h != nil && !h.Dominates(b) {
-			h = h.Idom()
-		}
-		if h == nil || h == writes[1].Block() || !h.Dominates(writes[1].Block()) {
-			pathBad, badPos = "the 'M' loop does not lie on every path to the hundreds write", ret
+		if h := loopBoundedBy(writes[0].Block(), steps[0].q); h != nil && !h.Dominates(b) {
+			pathBad, badPos = "the 'M' loop does not lie on every path to this return (it is entered only under a condition)", ret
 		}
 		if fn != top {
-			continue // a helper writing into the caller's buffer: what is handed back is the caller's business (C02.buffer)
+			continue // a helper writing into the caller's buffer: what is handed back is checked at the caller below
 		}
 		if len(vals) != 2 {
 			pathBad, badPos = "unexpected result count", ret
@@ -511,6 +509,77 @@ func ruleC02Decomp(e *Env) {
 			pathBad, badPos = "the value returned after the writes is not the content of the buffer written to", ret
 		}
 	}
+	if fn != top && helperCall != nil {
+		// the caller's path: apart from its n == 0 exit every return of DefaultFormatter lies behind the helper call,
+		// carries a nil error and hands back the helper's result or the content of a buffer the helper was given
+		var zb *ssa.BasicBlock
+		for _, b := range top.Blocks {
+			iff, ok := b.Instrs[len(b.Instrs)-1].(*ssa.If)
+			if !ok {
+				continue
+			}
+			if cmp, ok := iff.Cond.(*ssa.BinOp); ok && (cmp.Op == token.EQL || cmp.Op == token.NEQ) {
+				x, y := cmp.X, cmp.Y
+				if _, isC := x.(*ssa.Const); isC {
+					x, y = y, x
+				}
+				if k, isK := flow.ConstInt(y); isK && k == 0 && flow.StripConv(x) == ssa.Value(top.Params[1]) {
+					zb = b.Succs[map[bool]int{true: 0, false: 1}[cmp.Op == token.EQL]]
+					if len(zb.Preds) != 1 {
+						zb = nil
+					}
+				}
+			}
+		}
+		bad, n := "", 0
+		var at ssa.Instruction
+		for _, b := range top.Blocks {
+			ret, ok := b.Instrs[len(b.Instrs)-1].(*ssa.Return)
+			if !ok || zb != nil && zb.Dominates(b) {
+				continue
+			}
+			n++
+			vals := flow.ReturnValues(ret)
+			switch {
+			case !helperCall.Block().Dominates(b):
+				bad, at = "a return other than the n = 0 exit is reachable without the call of "+flow.FnName(fn)+" (the numeral is written only under a condition)", ret
+			case len(vals) != 2:
+				bad, at = "unexpected result count", ret
+			default:
+				if c, ok := vals[1].(*ssa.Const); !ok || !c.IsNil() {
+					bad, at = "a return after the writes carries a non-nil error (the formatter is documented never to fail)", ret
+				}
+				okVal := false
+				switch v := vals[0].(type) {
+				case *ssa.Call:
+					if v == helperCall {
+						okVal = true
+					} else if f := v.Call.StaticCallee(); f != nil && (f.String() == "(*bytes.Buffer).Bytes") {
+						for _, a := range helperCall.Call.Args {
+							if a == v.Call.Args[0] {
+								okVal = true
+							}
+						}
+					}
+				case *ssa.Extract:
+					okVal = v.Tuple == ssa.Value(helperCall)
+				}
+				if !okVal {
+					bad, at = "the value returned after the call of "+flow.FnName(fn)+" is neither its result nor the content of the buffer handed to it", ret
+				}
+			}
+		}
+		switch {
+		case zb == nil:
+			e.S.Unk(rule, flow.FnName(top), "single path", "no `n == 0` exit found: which returns are the zero case is not decided", e.Pos(top))
+		case n == 0:
+			e.S.Unk(rule, flow.FnName(top), "single path", "no return after the helper call found", e.Pos(top))
+		case bad != "":
+			e.S.Bad(rule, flow.FnName(top), "single path", bad, e.posOf(at), "")
+		default:
+			e.S.Ok(rule, flow.FnName(top), "single path", fmt.Sprintf("%d return(s) besides the n = 0 exit, each behind the unconditional call of %s", n, flow.FnName(fn)), e.Pos(top))
+		}
+	}
 	switch {
 	case zeroBlock == nil && fn == top: // (in a helper that receives a non-zero number every return comes after the writes)
 		e.S.Unk(rule, site, "single path", "no `n == 0` exit found: which returns are the zero case is not decided", e.Pos(fn))
@@ -524,7 +593,7 @@ func ruleC02Decomp(e *Env) {
 }
 
 // loopBoundedBy: block b lies in a loop whose counter runs 0,1,2… while counter < bound.
-func loopBoundedBy(b *ssa.BasicBlock, bound ssa.Value) bool {
+func loopBoundedBy(b *ssa.BasicBlock, bound ssa.Value) *ssa.BasicBlock {
 	// the block b runs exactly `bound` times: a unit-step counter whose continue-condition is, in either operand order,
 	//   up:   phi(0, i+1) with i < bound / i != bound,   phi(1, i+1) with i <= bound
 	//   down: phi(bound, i-1) with i > 0 / i != 0 / i >= 1
@@ -577,18 +646,37 @@ func loopBoundedBy(b *ssa.BasicBlock, bound ssa.Value) bool {
 		if !(body == b || body.Dominates(b)) {
 			continue
 		}
+		// the counter's test is the only way out: nothing in the body leaves the loop (a second condition, a break or
+		// a return ends the repetition before the bound)
+		single := true
+		for _, x := range blk.Parent().Blocks {
+			if x != body && !body.Dominates(x) {
+				continue
+			}
+			if len(x.Succs) == 0 {
+				single = false
+			}
+			for _, sx := range x.Succs {
+				if sx != blk && sx != body && !body.Dominates(sx) {
+					single = false
+				}
+			}
+		}
+		if !single {
+			continue
+		}
 		i0, initConst := flow.ConstInt(init)
 		lim, limConst := flow.ConstInt(y)
 		switch {
 		case step == 1 && initConst && i0 == 0 && (op == token.LSS || op == token.NEQ) && y == bound:
-			return true
+			return blk
 		case step == 1 && initConst && i0 == 1 && op == token.LEQ && y == bound:
-			return true
+			return blk
 		case step == -1 && init == bound && limConst && (lim == 0 && (op == token.GTR || op == token.NEQ) || lim == 1 && op == token.GEQ):
-			return true
+			return blk
 		}
 	}
-	return false
+	return nil
 }
 
 // ruleC02Lower: the switch of toLower.
@@ -610,14 +698,34 @@ func ruleC02Lower(e *Env) {
 	}
 	var classes []class
 	prev := int64(0)
+	gap := func(lo, hi int64) {
+		// split at the ends of 'A'..'Z': a toLower that lower-cases every upper-case ASCII letter behaves the same
+		// on every numeral (only the seven roman letters are ever written)
+		emit := func(lo, hi int64) {
+			if lo >= 'A' && hi <= 'Z' {
+				for c := lo; c <= hi; c++ { // one class per letter: comparisons with 'A' and 'Z' are decided on each
+					classes = append(classes, class{c, c, false})
+				}
+				return
+			}
+			classes = append(classes, class{lo, hi, false})
+		}
+		for _, cut := range []int64{'A', 'Z' + 1} {
+			if lo < cut && cut <= hi {
+				emit(lo, cut-1)
+				lo = cut
+			}
+		}
+		emit(lo, hi)
+	}
 	for _, c := range letters {
 		if int64(c) > prev {
-			classes = append(classes, class{prev, int64(c) - 1, false})
+			gap(prev, int64(c)-1)
 		}
 		classes = append(classes, class{int64(c), int64(c), true})
 		prev = int64(c) + 1
 	}
-	classes = append(classes, class{prev, 255, false})
+	gap(prev, 255)
 	gapBad := ""
 	for _, cl := range classes {
 		cl := cl
@@ -682,41 +790,127 @@ func ruleC02Lower(e *Env) {
 				e.S.Bad(rule, site, construct, fmt.Sprintf("%q is mapped to %v, not to its own lower case %q", rune(cl.lo), cell.V, rune(want)), e.Pos(fn), string(rune(cl.lo)))
 			}
 		default:
-			if cell.V.String() != "b" {
+			asciiLower := cl.lo >= 'A' && cl.hi <= 'Z' && (cell.V.String() == "(b+32 mod 2^8)" || cell.V.String() == "⟨b[7:6] 1×1 b[4:0]⟩")
+			if cell.V.String() != "b" && !asciiLower {
 				gapBad = fmt.Sprintf("toLower also rewrites bytes in %#x..%#x (to %v), which are not upper-case roman letters", cl.lo, cl.hi, cell.V)
 				e.S.Bad(rule, site, construct, gapBad, e.Pos(fn), "")
 			}
 		}
 	}
 	if gapBad == "" {
-		e.S.Ok(rule, site, "other bytes", "every byte that is not one of I V X L C D M is left unchanged", e.Pos(fn))
+		e.S.Ok(rule, site, "other bytes", "every byte that is not one of I V X L C D M is left unchanged (or, for the other upper-case ASCII letters, lower-cased too: no numeral holds one)", e.Pos(fn))
 	}
-	// applied only under FormatLowerCase
+	// applied exactly under FormatLowerCase, after the last write, to the whole numeral
 	if df != nil {
 		lc, _ := tabConstInt(e, "roman", "FormatLowerCase")
-		for _, call := range e.C.Calls(df, func(f *ssa.Function) bool { return f == fn }) {
-			okGate := false
-			for d := call.Block(); d != nil; d = d.Idom() {
-				id := d.Idom()
-				if id == nil {
-					break
-				}
-				iff, ok := id.Instrs[len(id.Instrs)-1].(*ssa.If)
-				if !ok {
-					continue
-				}
-				if pol := e.flagTest(iff.Cond, df.Params[2], lc); pol != 0 {
-					onTrue := id.Succs[0] == d || id.Succs[0].Dominates(d)
-					if pol > 0 && onTrue || pol < 0 && !onTrue {
-						okGate = true
+		ncalls := 0
+		for _, g := range flow.SortedFuncs(e.C.Reachable(df)) {
+			if g == fn {
+				continue
+			}
+			// the flags as g sees them: DefaultFormatter's own parameter, or the parameter of the flag type in a helper
+			var flags ssa.Value
+			if g == df {
+				flags = df.Params[2]
+			} else {
+				for _, q := range g.Params {
+					if q.Type() == df.Params[2].Type() {
+						flags = q
 					}
 				}
 			}
-			if okGate {
-				e.S.Ok(rule, flow.FnName(df), "gate", "toLower applied only when f&FormatLowerCase != 0", e.posOf(call))
-			} else {
-				e.S.Bad(rule, flow.FnName(df), "gate", "toLower is not gated by exactly the FormatLowerCase flag", e.posOf(call), "")
+			for _, call := range e.C.Calls(g, func(f *ssa.Function) bool { return f == fn }) {
+				ncalls++
+				okGate := ""
+				if flags == nil {
+					okGate = "the function calling toLower has no parameter of the flag type"
+				} else {
+					okGate = "toLower is not gated by the FormatLowerCase flag"
+					for d := call.Block(); d != nil; d = d.Idom() {
+						id := d.Idom()
+						if id == nil {
+							break
+						}
+						iff, ok := id.Instrs[len(id.Instrs)-1].(*ssa.If)
+						if !ok {
+							continue
+						}
+						pol := e.flagTest(iff.Cond, flags, lc)
+						if pol == 0 {
+							continue
+						}
+						side := 0
+						if pol < 0 {
+							side = 1
+						}
+						// from the flag's set side straight to the call: no further condition in between
+						at, steps := id.Succs[side], 0
+						for at != call.Block() && len(at.Succs) == 1 && steps < 8 {
+							at, steps = at.Succs[0], steps+1
+						}
+						if at == call.Block() {
+							okGate = ""
+						} else if id.Succs[side] == d || id.Succs[side].Dominates(d) {
+							okGate = "toLower runs under a further condition besides the FormatLowerCase flag: with the flag set some numerals keep their upper-case letters"
+						}
+						break
+					}
+				}
+				// the flag test lies behind every write of the numeral (a letter written afterwards keeps its case)
+				if okGate == "" {
+					for _, b := range g.Blocks {
+						for _, in := range b.Instrs {
+							w, ok := in.(*ssa.Call)
+							if !ok || w == call {
+								continue
+							}
+							f := e.C.StaticCallee(&w.Call)
+							if f == nil {
+								continue
+							}
+							writes := strings.HasPrefix(f.String(), "(*bytes.Buffer).Write")
+							if !writes && flow.InRepo(f) {
+								for h := range e.C.Reachable(f) {
+									for _, c2 := range e.C.Calls(h, func(f *ssa.Function) bool { return strings.HasPrefix(f.String(), "(*bytes.Buffer).Write") }) {
+										_ = c2
+										writes = true
+									}
+								}
+							}
+							if !writes {
+								continue
+							}
+							after := flow.ReachFrom(call.Block())[b]
+							if b == call.Block() && !after {
+								for _, x := range b.Instrs {
+									if x == ssa.Instruction(call) {
+										after = true
+									} else if x == ssa.Instruction(w) {
+										break
+									}
+								}
+							}
+							if after {
+								okGate = "a write to the numeral's buffer can follow the lower-casing: letters written afterwards keep their case"
+							}
+						}
+					}
+				}
+				// the argument covers everything written: buffer.Bytes()[len(buf):] (or the whole content)
+				if okGate == "" && len(call.Call.Args) == 1 {
+					if sl, ok := call.Call.Args[0].(*ssa.Slice); ok && sl.High != nil {
+						okGate = "toLower is handed a part of the numeral only (an upper bound on the slice)"
+					}
+				}
+				if okGate == "" {
+					e.S.Ok(rule, flow.FnName(g), "gate", "toLower applied exactly when f&FormatLowerCase != 0, after the last write", e.posOf(call))
+				} else {
+					e.S.Bad(rule, flow.FnName(g), "gate", okGate, e.posOf(call), "")
+				}
 			}
+		}
+		if ncalls == 0 {
+			e.S.Bad(rule, flow.FnName(df), "gate", "toLower is not called by the formatter: the lower-case flag is served by code this rule has not read", e.Pos(df), "")
 		}
 	}
 }
